@@ -1212,7 +1212,7 @@ struct ModelRun
         }
         std::vector<int64_t> ok;
         for (int64_t t : b)
-            if (t + o.off >= now)
+            if (t + o.off >= now && t < 4'000'000'000'000'000'000ll) // never move the clock so far that now + ttl could overflow
                 ok.push_back(t + o.off);
         if (ok.empty())
             return;
